@@ -250,7 +250,7 @@ def _wrapper_world(kind):
         gp = Parameter("grid", grid.clone())
         tm, _ = treemodels.build_timetree(tree, names, tips, heights[idx[0]].clone())
         th = Parameter("theta", thetas[idx[1]].clone())
-        params, values = [tm._internal_heights, th], [heights, thetas]
+        params, values = [treemodels.tree_parameter(tm), th], [heights, thetas]
         if kind == "constant":
             m = co.ConstantCoalescentModel("c", th, tm)
         elif kind == "exponential":
